@@ -162,6 +162,11 @@ type lookupSpec struct {
 	AttrsB []hx.Attr `json:"attrs_b"`
 	Inputs []*hx.TJ  `json:"inputs"`
 	NOut   int       `json:"n_out"`
+	// expected outputs per attribute set from the reference interpreter (independent of any state the
+	// process may have accumulated); nil = not modelled, fall back to the isolated result
+	ExpA []*hx.TJ `json:"exp_a,omitempty"`
+	ExpB []*hx.TJ `json:"exp_b,omitempty"`
+	Cmp  hx.Cmp   `json:"cmp"`
 }
 
 // lookupHistory: threads[i] uses attribute set Sets[i]; Schedule lists thread ids, each thread's
@@ -253,6 +258,16 @@ func (h *lookupHistory) run() (v *hx.Violation) {
 					res.Outs = append(res.Outs, r)
 				}
 			}()
+			exp := h.Spec.ExpA
+			if set == "B" {
+				exp = h.Spec.ExpB
+			}
+			if exp != nil {
+				if k, d := hx.Judge(hx.DCompute, res, hx.TJsT(exp), h.Spec.Cmp); k != "" {
+					return mk("history-dependent", fmt.Sprintf("thread %d (attribute set %s) under schedule %v differs from the reference result for its own attributes: %s: %s", t, set, h.Schedule, k, d))
+				}
+				break
+			}
 			if iso[set].Err != nil && res.Err != nil {
 				break
 			}
@@ -294,7 +309,121 @@ func merges(nT int) [][]int {
 	return out
 }
 
-func lookupSpecs() []lookupSpec {
+// withRef fills the reference expectations of a spec by evaluating the reference interpreter.
+func withRef(sp lookupSpec) lookupSpec {
+	eval := func(attrs []hx.Attr) []*hx.TJ {
+		in := hx.TJsT(sp.Inputs)
+		geti := func(name string, def int64) int64 {
+			for _, a := range attrs {
+				if a.Name == name {
+					return a.I
+				}
+			}
+			return def
+		}
+		getf := func(name string, def float32) float32 {
+			for _, a := range attrs {
+				if a.Name == name {
+					return a.F
+				}
+			}
+			return def
+		}
+		getis := func(name string) ([]int64, bool) {
+			for _, a := range attrs {
+				if a.Name == name {
+					return a.Ints, true
+				}
+			}
+			return nil, false
+		}
+		getfs := func(name string) []float32 {
+			for _, a := range attrs {
+				if a.Name == name {
+					return a.Floats
+				}
+			}
+			return nil
+		}
+		toInts := func(v []int64) []int {
+			if v == nil {
+				return nil
+			}
+			o := make([]int, len(v))
+			for i, x := range v {
+				o[i] = int(x)
+			}
+			return o
+		}
+		var out []*ref.T
+		var err error
+		one := func(t *ref.T, e error) { out, err = []*ref.T{t}, e }
+		switch sp.Op {
+		case "Gemm":
+			one(ref.Gemm(in[0], in[1], in[2], getf("alpha", 1), getf("beta", 1), geti("transA", 0) != 0, geti("transB", 0) != 0))
+		case "Concat":
+			one(ref.Concat(in, int(geti("axis", 0))))
+		case "Flatten":
+			one(ref.Flatten(in[0], int(geti("axis", 1))))
+		case "Transpose":
+			p, ok := getis("perm")
+			one(ref.Transpose(in[0], p, ok))
+		case "Softmax", "LogSoftmax":
+			one(ref.Softmax(in[0], int(geti("axis", -1)), sp.Op == "LogSoftmax"))
+		case "ArgMax":
+			one(ref.ArgMax(in[0], int(geti("axis", 0)), geti("keepdims", 1) != 0))
+		case "ReduceMax", "ReduceMin":
+			ax, ok := getis("axes")
+			one(ref.Reduce(in[0], ax, ok, geti("keepdims", 1) != 0, sp.Op == "ReduceMax"))
+		case "Gather":
+			one(ref.Gather(in[0], in[1], int(geti("axis", 0))))
+		case "Conv":
+			a := ref.ConvAttrs{}
+			for _, at := range attrs {
+				switch at.Name {
+				case "strides":
+					a.Strides = toInts(at.Ints)
+				case "pads":
+					a.Pads = toInts(at.Ints)
+				case "dilations":
+					a.Dilations = toInts(at.Ints)
+				case "kernel_shape":
+					a.Kernel = toInts(at.Ints)
+				case "auto_pad":
+					a.AutoPad = at.S
+				}
+			}
+			one(ref.Conv(in[0], in[1], in[2], a))
+		case "Scaler":
+			one(ref.Scaler(in[0], getfs("offset"), getfs("scale")))
+		case "LinearRegressor":
+			one(ref.LinearRegressor(in[0], getfs("coefficients"), getfs("intercepts"), int(geti("targets", 1))))
+		case "RNN", "GRU", "LSTM":
+			ra := ref.RecAttrs{Hidden: int(geti("hidden_size", 0)), LBR: geti("linear_before_reset", 0) != 0}
+			for _, at := range attrs {
+				if at.Name == "activations" {
+					ra.Activations = at.Strs
+				}
+			}
+			var B *ref.T
+			if len(in) > 3 {
+				B = in[3]
+			}
+			out, err = ref.Recurrent(sp.Op, in[0], in[1], in[2], B, nil, nil, nil, ra)
+		default:
+			return nil
+		}
+		if err != nil {
+			return nil
+		}
+		return hx.ToTJs(out)
+	}
+	sp.ExpA, sp.ExpB = eval(sp.AttrsA), eval(sp.AttrsB)
+	sp.Cmp = hx.Tol(1e-4, 1e-4)
+	return sp
+}
+
+func lookupSpecsRaw() []lookupSpec {
 	f := func(sh ...int) *hx.TJ { return hx.ToTJ(linFill(ref.F32, sh, 3)) }
 	rec := func(op string, ng int, acts1, acts2 []string, withState bool) lookupSpec {
 		ins := []*hx.TJ{hx.ToTJ(recFill(ref.F32, []int{2, 2, 2}, 1)), hx.ToTJ(recFill(ref.F32, []int{1, ng * 2, 2}, 2)), hx.ToTJ(recFill(ref.F32, []int{1, ng * 2, 2}, 3))}
@@ -330,6 +459,15 @@ func lookupSpecs() []lookupSpec {
 		{Op: "GRU", AttrsA: []hx.Attr{hx.AInt("hidden_size", 2), hx.AInt("linear_before_reset", 1)}, AttrsB: []hx.Attr{hx.AInt("hidden_size", 2)},
 			Inputs: []*hx.TJ{hx.ToTJ(recFill(ref.F32, []int{2, 2, 2}, 1)), hx.ToTJ(recFill(ref.F32, []int{1, 6, 2}, 2)), hx.ToTJ(recFill(ref.F32, []int{1, 6, 2}, 3)), hx.ToTJ(recFill(ref.F32, []int{1, 12}, 4))}, NOut: 2},
 	}
+}
+
+func lookupSpecs() []lookupSpec {
+	raw := lookupSpecsRaw()
+	out := make([]lookupSpec, len(raw))
+	for i, sp := range raw {
+		out[i] = withRef(sp)
+	}
+	return out
 }
 
 var nonRegisteredOnnxOps = []string{"Abs ", " Abs", "abs", "ABS", "", "Identity", "AveragePool", "MaxPool", "BatchNormalization", "Clip", "Dropout", "Elu", "Erf", "Exp", "Floor", "Ceil", "GlobalAveragePool", "HardSigmoid", "LeakyRelu", "Log", "Max", "Min",
